@@ -48,3 +48,30 @@ func IsTruthy(val any) bool {
 		return true
 	}
 }
+
+// Sprint is the string form of a value that a template prints. It is fmt.Sprint, except that a
+// pointer to a string, a number or a bool (an optional field of a struct) prints what it points
+// to: fmt prints the address, which is different in every process. A nil pointer prints nothing.
+func Sprint(val any) string {
+	switch val.(type) {
+	case fmt.Stringer, error:
+		return fmt.Sprint(val)
+	}
+	rv := reflect.ValueOf(val)
+	for rv.Kind() == reflect.Ptr && !rv.IsNil() {
+		rv = rv.Elem()
+	}
+	switch rv.Kind() {
+	case reflect.Ptr:
+		// (a nil pointer is nothing, like nil itself: fmt would print "<nil>")
+		return ""
+	case reflect.Bool, reflect.String,
+		reflect.Int, reflect.Int8, reflect.Int16, reflect.Int32, reflect.Int64,
+		reflect.Uint, reflect.Uint8, reflect.Uint16, reflect.Uint32, reflect.Uint64, reflect.Uintptr,
+		reflect.Float32, reflect.Float64, reflect.Complex64, reflect.Complex128:
+		if rv.CanInterface() {
+			return fmt.Sprint(rv.Interface())
+		}
+	}
+	return fmt.Sprint(val)
+}
